@@ -171,7 +171,7 @@ class C18:
             base = os.path.join(WORK, f'tsan.{tsan_tag}')
             for f in glob.glob(base + '.*'):
                 os.remove(f)
-            env['TSAN_OPTIONS'] = f'log_path={base} exitcode=0 report_thread_leaks=0 report_signal_unsafe=0 second_deadlock_stack=1'
+            env['TSAN_OPTIONS'] = f'log_path={base} exitcode=0 report_thread_leaks=0 report_signal_unsafe=0 suppress_equal_addresses=0'
         t0 = time.time()
         out = vlib.run_harness(binary, ['run', T, iters, ops], env=env, timeout=1800)
         dt = time.time() - t0
@@ -322,18 +322,50 @@ class C18:
             ts = sorted({2, 3, 4, 8, 16, rnd.choice([5, 6, 7]), rnd.choice([9, 10, 11, 12, 13, 14, 15])})
             tsan = [(T, 240 * budget, seed) for T in ts]
         else:
-            plain = [(T, 40000 * budget, seed + k) for T in ALL_T for k in (0, 101, 202)]
-            tsan = [(T, 1500 * budget, seed) for T in ALL_T]
+            plain = [(T, 20000 * budget, seed + k) for T in ALL_T for k in (0, 101)]
+            tsan = [(T, 600 * budget, seed) for T in ALL_T]
         return plain, tsan
 
     # ------------------------------------------------------------------ entry points
+    @staticmethod
+    def merge(static_findings, dynamic_findings):
+        """one defect = one finding: result mismatches and TSan races that are attributed to a cell which the
+        source scan already reports as written-by-const become `manifestations` of that shared-write finding;
+        everything else (unattributed mismatch / race, or attributed to a cell the scan considers clean) stays a
+        finding of its own and therefore a NEW violation"""
+        by_cell = {f['key']['cell']: f for f in static_findings if f['key'].get('kind') == 'shared-write'}
+        rest = []
+        for f in dynamic_findings:
+            host = by_cell.get(f['key'].get('cell'))
+            if host is None:
+                rest.append(f)
+                continue
+            host.setdefault('manifestations', []).append({'key': f['key'], 'what': f['what'], 'err': f.get('err')})
+            if f.get('err') is not None:
+                host['err'] = max(host.get('err') or 0.0, f['err'])
+                host['tol'] = 0
+            rp = host.setdefault('replay', {'op': set(), 'threads': set(), 'iters': 0, 'seed': None})
+            r = f.get('replay', {})
+            rp['op'].add(r.get('op', 'all'))
+            rp['threads'].update(r.get('threads', [])[:4])
+            rp['iters'] = max(rp['iters'], r.get('iters', 0))
+            rp['seed'] = r.get('seed', rp['seed'])
+        for f in static_findings:
+            rp = f.get('replay')
+            if rp:
+                ops = sorted(rp['op'])
+                f['replay'] = {'op': 'all' if 'all' in ops else ','.join(ops), 'threads': sorted(rp['threads'])[:6],
+                               'iters': rp['iters'], 'seed': rp['seed'], 'both_builds': True}
+                f['what'] += ' — observed: ' + '; '.join(m['what'] for m in f['manifestations'][:6])
+        return static_findings + rest
+
     def explore(self, ctx):
         cov, findings, broken = self.inventory_check()
         plain, tsan = self.plans(ctx)
         c2, f2 = self.stress(ctx, plain, tsan)
         cov.update(c2)
         cov['rule'] = self.rule
-        return {'coverage': cov, 'findings': findings + f2, 'broken': broken}
+        return {'coverage': cov, 'findings': self.merge(findings, f2), 'broken': broken}
 
     def search(self, ctx, broken):
         """an obligation broke (inventory changed) and the normal stress run found nothing: search harder
@@ -342,31 +374,32 @@ class C18:
         if ctx['tier'] == 'quick':
             tsan = [(T, 1200, ctx['seed'] + 7919) for T in ALL_T]
         cov, findings = self.stress(ctx, plain, tsan)
-        return {'coverage': cov, 'findings': findings}
+        _, static, _ = self.inventory_check()
+        return {'coverage': cov, 'findings': [f for f in self.merge(static, findings) if f['key'].get('kind') != 'shared-write']}
 
     def replay(self, ctx, payload):
+        """re-run the named ops / thread counts (both builds) and the source scan against the current tree"""
         cov, findings, broken = self.inventory_check()
-        out = [f for f in findings if any(f['key'] == c.get('key') for c in payload.get('cases', []))]
-        plain, tsan = [], []
+        plain, tsan = set(), set()
         ops = set()
         for c in payload.get('cases', []):
             rp = c.get('replay')
             if not rp:
                 continue
-            ops.add(rp['op'])
+            ops.update(rp['op'].split(','))
+            seed = rp.get('seed') or ctx['seed']
             for T in rp['threads']:
-                (tsan if rp.get('tsan') else plain).append((T, rp['iters'], rp.get('seed', ctx['seed'])))
-                if c['key'].get('kind') == 'mismatch':
-                    tsan.append((T, max(100, rp['iters'] // 10), rp.get('seed', ctx['seed'])))
-        if payload.get('no_longer_checks') and not plain and not tsan:
+                if rp.get('tsan'):
+                    tsan.add((T, max(100, rp['iters']), seed))
+                else:
+                    plain.add((T, max(1000, rp['iters']), seed))
+                    tsan.add((T, max(100, min(2000, rp['iters'] // 10)), seed))
+        if not plain and not tsan:
             plain, tsan = self.plans(ctx)
-        if plain or tsan:
-            opsel = 'all' if ('all' in ops or not ops) else ','.join(sorted(ops))
-            c2, f2 = self.stress(ctx, sorted(set(plain)), sorted(set(tsan)), opsel)
-            cov.update(c2)
-            wanted = [c.get('key') for c in payload.get('cases', [])]
-            out += [f for f in f2 if f['key'] in wanted] if wanted else f2
-        return {'coverage': cov, 'findings': out, 'broken': broken}
+        opsel = 'all' if ('all' in ops or not ops) else ','.join(sorted(ops))
+        c2, f2 = self.stress(ctx, sorted(plain), sorted(tsan), opsel)
+        cov.update(c2)
+        return {'coverage': cov, 'findings': self.merge(findings, f2), 'broken': broken}
 
 
 def make():
